@@ -13,10 +13,14 @@ import ModVerif.Generated.FnTlog
 import ModVerif.Model.Tlog
 import ModVerif.Proofs.TieFnTlogProofMax
 import ModVerif.Proofs.TieFnTlogProofCheck
+import ModVerif.Proofs.TieFnTlogProofHash
+import ModVerif.Proofs.TieFnTlogProofProve
+import ModVerif.Proofs.TieFnTlogProofIndex
+import ModVerif.Proofs.TieFnTlogProofTop
 import ModVerif.Proofs.TlogTH
 import ModVerif.Spec.RFC6962
 namespace ModVerif.Tie.FnTlogProof
-open ModVerif ModVerif.GoRt ModVerif.GoRtList ModVerif.Tlog ModVerif.TlogTH
+open ModVerif ModVerif.GoRt ModVerif.GoRtList ModVerif.Tlog ModVerif.TlogTH ModVerif.TieFnTlogInt
 
 section
 variable {H : Type} [DecidableEq H] [Inhabited H] (node : H → H → H)
@@ -151,6 +155,210 @@ example :
       .proofFailed = true ∧
     okIs (Generated.Tlog.CheckTree TH.node 0 [] 7 (root 7) 8 (root 3)) (some "tlog: invalid inputs in CheckTree") = true ∧
     isErr (Tlog.checkTree TH.node [] 7 (root 7) 8 (root 3)) .invalid = true := by decide +kernel
+
+/-! ### the provers
+
+`toM` renders a model result as a result of generated code (every model error is a Go panic site), `subTreeIndexOut need`
+the same for index lists appended to `need`, and `readOut dflt inv rerr` renders the result of an exported prover:
+`.ok a ↦ (a, nil)`, `Err.invalid ↦ (dflt, inv)`, `Err.reader ↦ (dflt, readErrOf r indexes)` (the reader's own error or the
+"ReadHashes(%d indexes) = %d hashes" text), any other model error ↦ panic.  The model reads through
+`readerOf r` (tie-tlogint's conversion of a generated-code reader).  Range: `hi < 2^63` for the hash recursions
+(`subTreeHash` additionally `hi - lo + 1 < 2^63`: the loop computes `hi - lo + 1`), `hi ≤ 2^62` wherever
+`StoredHashIndex` is computed (beyond it the int64 index overflows in the Go code). -/
+
+/-- `subTreeHash` — all panic cases included ("bad math", too few hashes, empty interval). -/
+theorem subTreeHash_tie (fuel : Nat) (lo hi : Int) (hashes : List H)
+    (h0 : 0 ≤ lo) (h0' : 0 ≤ hi) (h1 : hi < 2 ^ 63) (h2 : hi - lo + 1 < 2 ^ 63) (hf : (hi - lo).toNat + 1 ≤ fuel) :
+    Generated.Tlog.subTreeHash node fuel lo hi hashes =
+      toM (Tlog.subTreeHash node lo.toNat hi.toNat hashes) := by
+  have e1 : lo = (lo.toNat : Int) := by omega
+  have e2 : hi = (hi.toNat : Int) := by omega
+  rw [e1, e2]
+  simp only [Int.toNat_natCast]
+  exact subTreeHash_ok node fuel _ _ hashes (by omega) (by omega) (by omega)
+
+/-- non-vacuity: interval [4,7) = subtrees [4,6), [6,7); three hashes given, two consumed; and a panic case (too few) -/
+example : Generated.Tlog.subTreeHash TH.node 4 4 7 [TH.junk 0, TH.junk 1, TH.junk 2] =
+    toM (Tlog.subTreeHash TH.node 4 7 [TH.junk 0, TH.junk 1, TH.junk 2]) :=
+  subTreeHash_tie TH.node 4 4 7 _ (by omega) (by omega) (by omega) (by omega) (by decide)
+example :
+    okIs (Generated.Tlog.subTreeHash TH.node 4 4 7 [TH.junk 0, TH.junk 1, TH.junk 2])
+      (TH.node (TH.junk 0) (TH.junk 1), [TH.junk 2]) = true ∧
+    isOk (Tlog.subTreeHash TH.node 4 7 [TH.junk 0, TH.junk 1, TH.junk 2])
+      (TH.node (TH.junk 0) (TH.junk 1), [TH.junk 2]) = true ∧
+    Generated.Tlog.subTreeHash TH.node 4 4 7 [TH.junk 0] = .error .panic ∧
+    isErr (Tlog.subTreeHash TH.node 4 7 [TH.junk 0]) .panic = true := by
+  refine ⟨by decide +kernel, by decide +kernel, ?_, by decide +kernel⟩
+  rw [subTreeHash_tie TH.node 4 4 7 _ (by omega) (by omega) (by omega) (by omega) (by decide)]
+  rfl
+
+/-- `leafProofIndex` -/
+theorem leafProofIndex_tie (fuel : Nat) (lo hi n : Int) (need : List Int)
+    (h0 : 0 ≤ lo) (h0' : 0 ≤ hi) (h0'' : 0 ≤ n) (h1 : hi ≤ 2 ^ 62) (hf : (hi - lo).toNat + 127 ≤ fuel) :
+    Generated.Tlog.leafProofIndex fuel lo hi n need =
+      subTreeIndexOut need (Tlog.leafProofIndex lo.toNat hi.toNat n.toNat) := by
+  have e1 : lo = (lo.toNat : Int) := by omega
+  have e2 : hi = (hi.toNat : Int) := by omega
+  have e3 : n = (n.toNat : Int) := by omega
+  rw [e1, e2, e3]
+  simp only [Int.toNat_natCast]
+  exact leafProofIndex_ok fuel _ _ _ _ need (by omega) (Nat.le_refl _) (by omega)
+
+example : Generated.Tlog.leafProofIndex 134 0 7 2 [5] = subTreeIndexOut [5] (Tlog.leafProofIndex 0 7 2) :=
+  leafProofIndex_tie 134 0 7 2 [5] (by omega) (by omega) (by omega) (by omega) (by decide)
+example : okIs (Generated.Tlog.leafProofIndex 134 0 7 2 [5]) [5, 2, 4, 9, 10] = true ∧
+    isOk (Tlog.leafProofIndex 0 7 2) [2, 4, 9, 10] = true := by decide +kernel
+
+/-- `leafProof` -/
+theorem leafProof_tie (fuel : Nat) (lo hi n : Int) (hashes : List H)
+    (h0 : 0 ≤ lo) (h0' : 0 ≤ hi) (h0'' : 0 ≤ n) (h1 : hi < 2 ^ 63) (hf : (hi - lo).toNat + 1 ≤ fuel) :
+    Generated.Tlog.leafProof node fuel lo hi n hashes =
+      toM (Tlog.leafProof node lo.toNat hi.toNat n.toNat hashes) := by
+  have e1 : lo = (lo.toNat : Int) := by omega
+  have e2 : hi = (hi.toNat : Int) := by omega
+  have e3 : n = (n.toNat : Int) := by omega
+  rw [e1, e2, e3]
+  simp only [Int.toNat_natCast]
+  exact leafProof_ok node fuel _ _ _ _ hashes (by omega) (Nat.le_refl _) (by omega)
+
+example : Generated.Tlog.leafProof TH.node 4 4 7 5 [TH.junk 0, TH.junk 1, TH.junk 2] =
+    toM (Tlog.leafProof TH.node 4 7 5 [TH.junk 0, TH.junk 1, TH.junk 2]) :=
+  leafProof_tie TH.node 4 4 7 5 _ (by omega) (by omega) (by omega) (by omega) (by decide)
+example :
+    okIs (Generated.Tlog.leafProof TH.node 4 4 7 5 [TH.junk 0, TH.junk 1, TH.junk 2])
+      ([TH.junk 0, TH.junk 1], [TH.junk 2]) = true ∧
+    isOk (Tlog.leafProof TH.node 4 7 5 [TH.junk 0, TH.junk 1, TH.junk 2]) ([TH.junk 0, TH.junk 1], [TH.junk 2]) = true := by
+  decide +kernel
+
+/-- `treeProofIndex` -/
+theorem treeProofIndex_tie (fuel : Nat) (lo hi n : Int) (need : List Int)
+    (h0 : 0 ≤ lo) (h0' : 0 ≤ hi) (h0'' : 0 ≤ n) (h1 : hi ≤ 2 ^ 62) (hf : (hi - lo).toNat + 127 ≤ fuel) :
+    Generated.Tlog.treeProofIndex fuel lo hi n need =
+      subTreeIndexOut need (Tlog.treeProofIndex lo.toNat hi.toNat n.toNat) := by
+  have e1 : lo = (lo.toNat : Int) := by omega
+  have e2 : hi = (hi.toNat : Int) := by omega
+  have e3 : n = (n.toNat : Int) := by omega
+  rw [e1, e2, e3]
+  simp only [Int.toNat_natCast]
+  exact treeProofIndex_ok fuel _ _ _ _ need (by omega) (Nat.le_refl _) (by omega)
+
+example : Generated.Tlog.treeProofIndex 134 0 7 3 [5] = subTreeIndexOut [5] (Tlog.treeProofIndex 0 7 3) :=
+  treeProofIndex_tie 134 0 7 3 [5] (by omega) (by omega) (by omega) (by omega) (by decide)
+example : okIs (Generated.Tlog.treeProofIndex 134 0 7 3 [5]) [5, 2, 3, 4, 9, 10] = true ∧
+    isOk (Tlog.treeProofIndex 0 7 3) [2, 3, 4, 9, 10] = true := by decide +kernel
+
+/-- `treeProof` -/
+theorem treeProof_tie (fuel : Nat) (lo hi n : Int) (hashes : List H)
+    (h0 : 0 ≤ lo) (h0' : 0 ≤ hi) (h0'' : 0 ≤ n) (h1 : hi < 2 ^ 63) (hf : (hi - lo).toNat + 2 ≤ fuel) :
+    Generated.Tlog.treeProof node fuel lo hi n hashes =
+      toM (Tlog.treeProof node lo.toNat hi.toNat n.toNat hashes) := by
+  have e1 : lo = (lo.toNat : Int) := by omega
+  have e2 : hi = (hi.toNat : Int) := by omega
+  have e3 : n = (n.toNat : Int) := by omega
+  rw [e1, e2, e3]
+  simp only [Int.toNat_natCast]
+  exact treeProof_ok node fuel _ _ _ _ hashes (by omega) (Nat.le_refl _) (by omega)
+
+example : Generated.Tlog.treeProof TH.node 5 4 7 6 [TH.junk 0, TH.junk 1, TH.junk 2] =
+    toM (Tlog.treeProof TH.node 4 7 6 [TH.junk 0, TH.junk 1, TH.junk 2]) :=
+  treeProof_tie TH.node 5 4 7 6 _ (by omega) (by omega) (by omega) (by omega) (by decide)
+example :
+    okIs (Generated.Tlog.treeProof TH.node 5 4 7 6 [TH.junk 0, TH.junk 1, TH.junk 2])
+      ([TH.junk 0, TH.junk 1], [TH.junk 2]) = true ∧
+    isOk (Tlog.treeProof TH.node 4 7 6 [TH.junk 0, TH.junk 1, TH.junk 2]) ([TH.junk 0, TH.junk 1], [TH.junk 2]) = true := by
+  decide +kernel
+
+/-- ★ `TreeHash(n, r)` for `0 ≤ n ≤ 2^62` and every reader. -/
+theorem TreeHash_tie (empty : H) (fuel : Nat) (n : Int) (r : List Int → List H × Option String)
+    (h0 : 0 ≤ n) (hn : n ≤ 2 ^ 62) (hf : n.toNat + 127 ≤ fuel) :
+    Generated.Tlog.TreeHash empty node fuel n r =
+      readOut default "" (readErrOf r (idxOf (Tlog.subTreeIndex 0 n.toNat)))
+        (Tlog.treeHash node empty n.toNat (readerOf r)) := by
+  have e1 : n = (n.toNat : Int) := by omega
+  rw [e1]
+  simp only [Int.toNat_natCast]
+  exact TreeHash_ok node empty fuel _ r (by omega) (by omega)
+
+example : Generated.Tlog.TreeHash TH.empty TH.node 134 7 (genReader (store 13)) =
+    readOut default "" (readErrOf (genReader (store 13)) (idxOf (Tlog.subTreeIndex 0 7)))
+      (Tlog.treeHash TH.node TH.empty 7 (readerOf (genReader (store 13)))) :=
+  TreeHash_tie TH.node TH.empty 134 7 _ (by omega) (by omega) (by decide)
+example :
+    okIs (Generated.Tlog.TreeHash TH.empty TH.node 134 7 (genReader (store 13))) (root 7, none) = true ∧
+    isOk (Tlog.treeHash TH.node TH.empty 7 (readerOf (genReader (store 13)))) (root 7) = true ∧
+    okIs (Generated.Tlog.TreeHash TH.empty TH.node 134 7 (genReader (store 3))) (default, some "missing hash") = true ∧
+    isErr (Tlog.treeHash TH.node TH.empty 7 (readerOf (genReader (store 3)))) .reader = true := by decide +kernel
+
+/-- ★ `ProveRecord(t, n, r)` for EVERY `t ≤ 2^62`, every `n` (also negative and out-of-range ones) and every reader. -/
+theorem ProveRecord_tie (fuel : Nat) (t n : Int) (r : List Int → List H × Option String)
+    (ht : t ≤ 2 ^ 62) (hf : t.toNat + 127 ≤ fuel) :
+    Generated.Tlog.ProveRecord node fuel t n r =
+      readOut [] "tlog: invalid inputs in ProveRecord" (readErrOf r (idxOf (Tlog.leafProofIndex 0 t.toNat n.toNat)))
+        (Tlog.proveRecord node t n (readerOf r)) := by
+  by_cases hg : t < 0 ∨ n < 0 ∨ n ≥ t
+  · have : (decide (t < 0) || decide (n < 0) || decide (n ≥ t)) = true := by
+      rcases hg with h | h | h <;> simp [h]
+    unfold Generated.Tlog.ProveRecord Tlog.proveRecord
+    simp only [this, if_true, pure_eq_ok, readOut]
+  · have e1 : t = (t.toNat : Int) := by omega
+    have e2 : n = (n.toNat : Int) := by omega
+    rw [e1, e2]
+    simp only [Int.toNat_natCast]
+    exact ProveRecord_ok node fuel _ _ r (by omega) (by omega) (by omega)
+
+/-- non-vacuity: the produced proof (= RFC 6962 audit path), a failing reader, a reader returning too few hashes, and
+    refused arguments; both sides evaluated -/
+example : Generated.Tlog.ProveRecord TH.node 134 7 2 (genReader (store 13)) =
+    readOut [] "tlog: invalid inputs in ProveRecord"
+      (readErrOf (genReader (store 13)) (idxOf (Tlog.leafProofIndex 0 7 2)))
+      (Tlog.proveRecord TH.node 7 2 (readerOf (genReader (store 13)))) :=
+  ProveRecord_tie TH.node 134 7 2 _ (by omega) (by decide)
+example :
+    okIs (Generated.Tlog.ProveRecord TH.node 134 7 2 (genReader (store 13)))
+      (RFC6962.path TH.node TH.empty 2 ((recs 7).map TH.leaf), none) = true ∧
+    isOk (Tlog.proveRecord TH.node 7 2 (readerOf (genReader (store 13))))
+      (RFC6962.path TH.node TH.empty 2 ((recs 7).map TH.leaf)) = true ∧
+    okIs (Generated.Tlog.ProveRecord TH.node 134 7 2 (genReader (store 3))) ([], some "missing hash") = true ∧
+    isErr (Tlog.proveRecord TH.node 7 2 (readerOf (genReader (store 3)))) .reader = true ∧
+    okIs (Generated.Tlog.ProveRecord TH.node 134 7 2 (fun _ => ([], none)))
+      ([], some "tlog: ReadHashes(%d indexes) = %d hashes") = true ∧
+    isErr (Tlog.proveRecord TH.node 7 2 (readerOf (fun _ => (([] : List TH), none)))) .reader = true ∧
+    okIs (Generated.Tlog.ProveRecord TH.node 0 7 7 (genReader (store 13)))
+      ([], some "tlog: invalid inputs in ProveRecord") = true ∧
+    isErr (Tlog.proveRecord TH.node 7 7 (readerOf (genReader (store 13)))) .invalid = true := by decide +kernel
+
+/-- ★ `ProveTree(t, n, r)` for EVERY `t ≤ 2^62`, every `n` and every reader. -/
+theorem ProveTree_tie (fuel : Nat) (t n : Int) (r : List Int → List H × Option String)
+    (ht : t ≤ 2 ^ 62) (hf : t.toNat + 127 ≤ fuel) :
+    Generated.Tlog.ProveTree node fuel t n r =
+      readOut [] "tlog: invalid inputs in ProveTree" (readErrOf r (idxOf (Tlog.treeProofIndex 0 t.toNat n.toNat)))
+        (Tlog.proveTree node t n (readerOf r)) := by
+  by_cases hg : t < 1 ∨ n < 1 ∨ n > t
+  · have : (decide (t < 1) || decide (n < 1) || decide (n > t)) = true := by
+      rcases hg with h | h | h <;> simp [h]
+    unfold Generated.Tlog.ProveTree Tlog.proveTree
+    simp only [this, if_true, pure_eq_ok, readOut]
+  · have e1 : t = (t.toNat : Int) := by omega
+    have e2 : n = (n.toNat : Int) := by omega
+    rw [e1, e2]
+    simp only [Int.toNat_natCast]
+    exact ProveTree_ok node fuel _ _ r (by omega) (by omega) (by omega) (by omega)
+
+example : Generated.Tlog.ProveTree TH.node 134 7 3 (genReader (store 13)) =
+    readOut [] "tlog: invalid inputs in ProveTree"
+      (readErrOf (genReader (store 13)) (idxOf (Tlog.treeProofIndex 0 7 3)))
+      (Tlog.proveTree TH.node 7 3 (readerOf (genReader (store 13)))) :=
+  ProveTree_tie TH.node 134 7 3 _ (by omega) (by decide)
+example :
+    okIs (Generated.Tlog.ProveTree TH.node 134 7 3 (genReader (store 13)))
+      (RFC6962.proof TH.node TH.empty 3 ((recs 7).map TH.leaf), none) = true ∧
+    isOk (Tlog.proveTree TH.node 7 3 (readerOf (genReader (store 13))))
+      (RFC6962.proof TH.node TH.empty 3 ((recs 7).map TH.leaf)) = true ∧
+    okIs (Generated.Tlog.ProveTree TH.node 134 7 3 (genReader (store 3))) ([], some "missing hash") = true ∧
+    isErr (Tlog.proveTree TH.node 7 3 (readerOf (genReader (store 3)))) .reader = true ∧
+    okIs (Generated.Tlog.ProveTree TH.node 0 7 8 (genReader (store 13)))
+      ([], some "tlog: invalid inputs in ProveTree") = true ∧
+    isErr (Tlog.proveTree TH.node 7 8 (readerOf (genReader (store 13)))) .invalid = true := by decide +kernel
 
 end
 end ModVerif.Tie.FnTlogProof
